@@ -143,7 +143,7 @@ def histories(which):
     if not np.isfinite(z).any():
         z[H // 2, W // 2] = 1.0
     dx = float(rng.uniform(0.05, 3))
-    ifg = I(z.copy(), dx=dx)
+    ifg = I(vary_layout(rng, z.copy()).copy(order='K'), dx=dx)      # the map in any memory layout
     if which == 'random-history':
         ops = ['read-xy', 'read-rt', 'remove_piston', 'remove_tiptilt', 'remove_power', 'recenter', 'latcal', 'strip_latcal', 'pad',
                'crop', 'mask', 'fill', 'spike_clip', 'filter']
